@@ -38,6 +38,7 @@ class Sim:
     def __init__(self):
         self.s = {}
         self.ctor = "new"      # "new_default" for histories on the C library allocator
+        self.mix = False       # further slots alternate between the two constructors
 
     def live(self):
         return sorted(self.s)
@@ -149,7 +150,8 @@ class LinkedGen:
         if len(live) < 2:
             k = sim.free_slot()
             sim.s[k] = []
-            out.append(f"{sim.ctor} o={k}" if k else sim.ctor)
+            ctor = "new" if sim.mix else sim.ctor
+            out.append(f"{ctor} o={k}" if k else ctor)
             for _ in range(rng.choice([0, 1, 2, 3, 5])):
                 v = val(rng)
                 sim.s[k].append(v)
@@ -157,7 +159,8 @@ class LinkedGen:
             live = sim.live()
         a, b = rng.sample(live, 2)
         la, lb = sim.s[a], sim.s[b]
-        c = rng.choice(["add_all", "add_all_at", "splice", "splice_at"])
+        # splice moves the nodes themselves, so it is only meaningful between lists on the same allocator
+        c = rng.choice(["add_all", "add_all_at"] if sim.mix else ["add_all", "add_all_at", "splice", "splice_at"])
         o = f" o={a}" if a else ""
         if c in ("add_all_at", "splice_at"):
             i = self.idx_choice(rng, len(la), reject)
@@ -308,13 +311,13 @@ class LinkedGen:
     def one_history(self, rng, tier, focus):
         sim = Sim()
         sim.s[0] = []
-        # A history is either entirely on the harness allocator or entirely on the C library allocator
-        # (`new_default` for every slot, no `fail=`): cc_list_add_all / add_all_at / the slist twins
-        # allocate the copies with the *source* list's allocator (link_all_externally(list2, …)), so
-        # mixing a default and a configured list makes the destination release foreign blocks
-        # -> corpus/<k>/defect_add_all_foreign_allocator.ops; that situation is excluded here.
-        if focus in ("all", "refuse") and rng.random() < 0.04:
+        # Some histories run on the C library allocator (`new_default`), and half of those mix it with
+        # lists on the harness allocator (add_all / add_all_at once allocated the copies with the SOURCE
+        # list's allocator: corpus/<k>/add_all_two_triples.ops).  No `fail=` in such histories (the C
+        # library allocator cannot be refused) and no zip iterator across the two kinds.
+        if focus in ("all", "refuse") and rng.random() < 0.06:
             sim.ctor = "new_default"
+            sim.mix = rng.random() < 0.5
         ops = [sim.ctor]
         length = rng.randint(1, 50)
         allf = focus in ("all", "refuse")
@@ -329,7 +332,7 @@ class LinkedGen:
             r = rng.random()
             new = []
             if (focus == "iter" or allf) and r < (0.3 if focus == "iter" else 0.12):
-                new = self.zip_program(rng, sim) if (rng.random() < 0.25 and len(live) > 1) else self.iter_program(rng, sim, k)
+                new = self.zip_program(rng, sim) if (rng.random() < 0.25 and len(live) > 1 and not sim.mix) else self.iter_program(rng, sim, k)
             elif (focus == "derived" or allf) and r < (0.35 if focus == "derived" else 0.2):
                 new = self.derived_op(rng, sim, k)
             elif (focus == "sort" or allf) and r < (0.4 if focus == "sort" else 0.28):
